@@ -65,6 +65,7 @@ Definition render_tok (en : env) (t : tok) : string :=
     let name := nth i (the_table k) "" in
     match k with
     | TSpecial => if mem_str name VARIABLE_KNOWN_SYMBOLS then name else "the " ++ name
+    | TNumOf => if String.eqb name "perFrameHook" then "the perFrameHook" else "the number of " ++ name
     | _ => "the " ++ name
     end
   end.
